@@ -274,7 +274,7 @@ static std::unique_ptr<Db> buildTargets(const Targets& t)
   if (t.grid)
   {
     VectorDouble angles;
-    if (t.angle != 0.) { angles.assign((size_t)t.ndim, 0.); angles[0] = t.angle; }
+    if (t.angle != 0.) { angles = VectorDouble((size_t)t.ndim, 0.); angles[0] = t.angle; }
     return std::unique_ptr<Db>(DbGrid::create(toVI(t.nx), toVD(t.dx), toVD(t.x0), angles));
   }
   std::unique_ptr<Db> db(Db::create());
@@ -583,3 +583,746 @@ static void runTbCond(const TbCase& c, Ctx& ctx)
               .add(hashStrucs(c.strucs)).h;
 }
 VERIF_SUB(tb_cond, TbCase, genTbCond, runTbCond);
+
+// =================================================================== simfft ============
+struct FftCase
+{
+  Targets T;
+  std::vector<Struc> strucs;
+  int nbsimu = 1, seed = 1, seed2 = 2, aliasing = 1;
+  double percent = 0.1;
+  template<class A> void io(A& a) { a("T", T)("strucs", strucs)("nbsimu", nbsimu)("seed", seed)("seed2", seed2)("aliasing", aliasing)("percent", percent); }
+};
+static FftCase genFft()
+{
+  FftCase c;
+  int ndim = G::pick<int>({1, 2, 2, 2, 3});
+  c.T = genTargets(ndim, ndim == 3 ? 216 : 400, 1, true);
+  double dxmax = 0;
+  for (double d : c.T.dx) dxmax = std::max(dxmax, d);
+  int ns = G::i(1, 2);
+  for (int k = 0; k < ns; k++)
+  {
+    Struc s = genStruc(ndim, 1, 1., {S_EXPO, S_SPHE, S_CUBIC, S_GAUSS, S_MATERN}, false);
+    s.range = dxmax * G::lu(0.5, ndim == 3 ? 4. : 15.); // keeps the dilated grid small
+    c.strucs.push_back(s);
+  }
+  if (G::pct(20))
+  {
+    Struc s;
+    s.type = S_NUGGET;
+    s.ratio.assign((size_t)ndim, 1.);
+    s.sills = {G::r(1, 4, 8)};
+    c.strucs.push_back(s);
+  }
+  c.nbsimu = G::pct(55) ? 1 : G::i(2, 4);
+  c.seed = G::seed();
+  do { c.seed2 = G::seed(); } while (c.seed2 == c.seed);
+  c.aliasing = G::pct(70) ? 1 : 0;
+  c.percent = G::pick<double>({0.1, 1., 5.});
+  return c;
+}
+static int callFft(const FftCase& c, int seed, Cols& out)
+{
+  std::unique_ptr<Db> db = buildTargets(c.T);
+  int ncol0 = db->getColumnNumber();
+  std::unique_ptr<Model> model = buildModel(c.T.ndim, 1, c.strucs, {}, -1);
+  SimuFFTParam par(c.aliasing != 0, c.percent);
+  int err = simfft(dynamic_cast<DbGrid*>(db.get()), model.get(), par, c.nbsimu, seed);
+  out = newColumns(db.get(), ncol0);
+  return err;
+}
+static void runFft(const FftCase& c, Ctx& ctx)
+{
+  resetGlobals(c.T.ndim);
+  ctx.label(fmt("ndim:%d", c.T.ndim));
+  ctx.label(c.nbsimu > 1 ? "nbsimu:>1" : "nbsimu:1");
+  for (auto& s : c.strucs) ctx.label(std::string("struct:") + snameOf(s.type));
+  Cols a, b, o;
+  ctx.at("simfft:first");
+  int e1 = callFft(c, c.seed, a);
+  ctx.at("simfft:second");
+  int e2 = callFft(c, c.seed, b);
+  if (e1 != e2) { ctx.fail("repro:simfft:status", fmt("error codes %d then %d", e1, e2)); return; }
+  if (e1 != 0) { ctx.fail("error:simfft", fmt("simfft returned error %d on a valid input", e1)); return; }
+  std::string d = diffCols(a, b);
+  if (!d.empty()) { ctx.fail("repro:simfft", "same call twice differs: " + d); return; }
+  if ((int)a.size() != c.nbsimu)
+  { ctx.fail("simfft:nbsimu-columns", fmt("%d output column(s) for nbsimu=%d", (int)a.size(), c.nbsimu)); return; }
+  if (anyNaN(a)) { ctx.fail("nan:simfft", "NaN in the simulated values"); return; }
+  std::vector<int> rows((size_t)c.T.n());
+  std::iota(rows.begin(), rows.end(), 0);
+  ctx.at("simfft:seed2");
+  int e3 = callFft(c, c.seed2, o);
+  if (e3 != 0) { ctx.fail("error:simfft", fmt("simfft returned error %d with the second seed", e3)); return; }
+  for (size_t k = 0; k < a.size() && k < o.size(); k++)
+    if (!colsDifferAt(a[k], o[k], rows)) { ctx.fail("seed-insensitive:simfft", fmt("column %d identical for two seeds", (int)k)); return; }
+  for (size_t i = 0; i < a.size(); i++)
+    for (size_t j = i + 1; j < a.size(); j++)
+      if (!colsDifferAt(a[i], a[j], rows)) { ctx.fail("rank-insensitive:simfft", fmt("simulations %d and %d identical", (int)i + 1, (int)j + 1)); return; }
+  ctx.nontrivial(true);
+  ctx.sig = Hash().add(c.T.ndim).add(c.T.n()).add(c.nbsimu).add(c.aliasing).add(hashStrucs(c.strucs)).h;
+}
+VERIF_SUB(fft, FftCase, genFft, runFft);
+
+// =================================================================== simulateSPDE ======
+struct SpdeCase
+{
+  Targets T;
+  std::vector<Struc> strucs; // Matern (+ nugget)
+  int cond = 0;
+  std::vector<int> place;
+  std::vector<double> z;
+  int cholesky = 1, refine = 3, border = 2, userMesh = 0;
+  std::vector<int> mnx;
+  std::vector<double> mdx, mx0;
+  int nbsimu = 1, seed = 1, seed2 = 2;
+  template<class A> void io(A& a)
+  {
+    a("T", T)("strucs", strucs)("cond", cond)("place", place)("z", z)("cholesky", cholesky)("refine", refine)("border", border);
+    a("userMesh", userMesh)("mnx", mnx)("mdx", mdx)("mx0", mx0)("nbsimu", nbsimu)("seed", seed)("seed2", seed2);
+  }
+};
+static SpdeCase genSpde()
+{
+  SpdeCase c;
+  int ndim = 2;
+  c.T = genTargets(ndim, 150, -1, false);
+  if (c.T.grid) for (auto& v : c.T.nx) v = std::max(v, 2);
+  double L = c.T.extent();
+  Struc s = genStruc(ndim, 1, L, {S_MATERN}, G::pct(30), 0.25, 1.5);
+  s.param = G::pick<double>({1., 1., 2.});
+  s.sills = {G::r(2, 8, 4)};
+  c.strucs.push_back(s);
+  if (G::pct(30))
+  {
+    Struc n;
+    n.type = S_NUGGET;
+    n.ratio.assign((size_t)ndim, 1.);
+    n.sills = {G::r(1, 4, 8)};
+    c.strucs.push_back(n);
+  }
+  c.cond = G::pct(50) ? 1 : 0;
+  int nt = c.T.n();
+  if (c.cond)
+  {
+    int nd = G::sz(1, std::min(15, nt));
+    c.place = genPlacement(nt, nd, 0);
+    for (int k = 0; k < nd; k++) c.z.push_back(G::r(-16, 16, 8));
+  }
+  c.cholesky = G::pct(70) ? 1 : 0;
+  c.refine = G::i(2, 4);
+  c.border = G::i(1, 3);
+  c.userMesh = G::pct(40) ? 1 : 0;
+  if (c.userMesh)
+  {
+    // a regular mesh covering the targets with a margin of 25 % of the field on each side
+    std::unique_ptr<Db> t = buildTargets(c.T);
+    for (int d = 0; d < ndim; d++)
+    {
+      double lo = 1e300, hi = -1e300;
+      for (int i = 0; i < nt; i++) { lo = std::min(lo, t->getCoordinate(i, d)); hi = std::max(hi, t->getCoordinate(i, d)); }
+      int n = G::i(5, 14);
+      double margin = 0.25 * L;
+      c.mnx.push_back(n);
+      c.mx0.push_back(lo - margin);
+      c.mdx.push_back((hi - lo + 2. * margin) / (n - 1));
+    }
+  }
+  c.nbsimu = G::i(1, 3);
+  c.seed = G::seed();
+  do { c.seed2 = G::seed(); } while (c.seed2 == c.seed);
+  return c;
+}
+static int callSpde(const SpdeCase& c, int seed, Cols& out)
+{
+  int ndim = c.T.ndim;
+  std::unique_ptr<Db> dbout = buildTargets(c.T);
+  int ncol0 = dbout->getColumnNumber();
+  std::unique_ptr<Model> model = buildModel(ndim, 1, c.strucs, {}, -1);
+  std::unique_ptr<Db> dbin;
+  if (c.cond)
+  {
+    dbin = buildDataOn(dbout.get(), ndim, c.place);
+    dbin->addColumns(toVD(c.z), "z", ELoc::Z, 0);
+  }
+  std::unique_ptr<MeshETurbo> mesh;
+  if (c.userMesh) mesh.reset(MeshETurbo::create(toVI(c.mnx), toVD(c.mdx), toVD(c.mx0)));
+  SPDEParam par(c.refine, c.refine, c.border);
+  // simulateSPDE has no seed argument: the seed of a call is the one given to the generator just before it
+  law_set_random_seed(seed);
+  int ret = simulateSPDE(dbin.get(), dbout.get(), model.get(), nullptr, c.nbsimu, mesh.get(), c.cholesky, par);
+  out = newColumns(dbout.get(), ncol0);
+  return ret;
+}
+static void runSpde(const SpdeCase& c, Ctx& ctx)
+{
+  resetGlobals(c.T.ndim);
+  ctx.label(c.cond ? "cond" : "noncond");
+  ctx.label(c.cholesky ? "solver:cholesky" : "solver:chebyshev");
+  ctx.label(c.userMesh ? "mesh:user" : "mesh:auto");
+  ctx.label(c.T.grid ? "target:grid" : "target:points");
+  Cols a, b, o;
+  ctx.at("simulateSPDE:first");
+  (void)callSpde(c, c.seed, a);
+  ctx.at("simulateSPDE:second");
+  (void)callSpde(c, c.seed, b);
+  if ((int)a.size() != c.nbsimu) { ctx.fail("columns:simulateSPDE", fmt("%d output columns for nbsimu=%d", (int)a.size(), c.nbsimu)); return; }
+  std::string d = diffCols(a, b);
+  if (!d.empty()) { ctx.fail(std::string("repro:simulateSPDE") + (c.cond ? ":cond" : ":noncond"), "same call twice differs: " + d); return; }
+  if (anyNaN(a)) { ctx.fail("nan:simulateSPDE", "NaN in the simulated values"); return; }
+  std::vector<int> rows((size_t)c.T.n());
+  std::iota(rows.begin(), rows.end(), 0);
+  ctx.at("simulateSPDE:seed2");
+  (void)callSpde(c, c.seed2, o);
+  if (o.size() != a.size()) { ctx.fail("columns:simulateSPDE", "number of output columns depends on the seed"); return; }
+  for (size_t k = 0; k < a.size(); k++)
+    if (!colsDifferAt(a[k], o[k], rows)) { ctx.fail("seed-insensitive:simulateSPDE", fmt("column %d identical for two seeds", (int)k)); return; }
+  for (size_t i = 0; i < a.size(); i++)
+    for (size_t j = i + 1; j < a.size(); j++)
+      if (!colsDifferAt(a[i], a[j], rows)) { ctx.fail("rank-insensitive:simulateSPDE", fmt("simulations %d and %d identical", (int)i + 1, (int)j + 1)); return; }
+  ctx.nontrivial(true);
+  ctx.sig = Hash().add(c.T.grid).add(c.T.n()).add(c.cond).add(c.cholesky).add(c.userMesh).add(c.nbsimu).add(c.refine).add(c.border)
+              .add((int)c.place.size()).add(hashStrucs(c.strucs)).h;
+}
+VERIF_SUB(spde, SpdeCase, genSpde, runSpde);
+
+// =================================================================== simuSpectral ======
+struct SpecCase
+{
+  Targets T;
+  std::vector<Struc> strucs; // exactly one
+  int nbsimu = 1, ns = 10, seed = 1, seed2 = 2;
+  template<class A> void io(A& a) { a("T", T)("strucs", strucs)("nbsimu", nbsimu)("ns", ns)("seed", seed)("seed2", seed2); }
+};
+static SpecCase genSpec()
+{
+  SpecCase c;
+  int ndim = G::pick<int>({1, 2, 2, 3});
+  c.T = genTargets(ndim, ndim == 3 ? 343 : 400, -1, true);
+  c.strucs.push_back(genStruc(ndim, 1, c.T.extent(), {S_EXPO, S_GAUSS, S_MATERN}, G::pct(40)));
+  c.nbsimu = G::i(1, 4);
+  c.ns = G::pct(15) ? G::i(1, 3) : G::sz(1, 100);
+  c.seed = G::seed();
+  do { c.seed2 = G::seed(); } while (c.seed2 == c.seed);
+  return c;
+}
+static int callSpec(const SpecCase& c, int seed, Cols& out)
+{
+  std::unique_ptr<Db> db = buildTargets(c.T);
+  int ncol0 = db->getColumnNumber();
+  std::unique_ptr<Model> model = buildModel(c.T.ndim, 1, c.strucs, {}, -1);
+  int err = simuSpectral(nullptr, db.get(), model.get(), c.nbsimu, seed, c.ns);
+  out = newColumns(db.get(), ncol0);
+  return err;
+}
+static void runSpec(const SpecCase& c, Ctx& ctx)
+{
+  resetGlobals(c.T.ndim);
+  ctx.label(fmt("ndim:%d", c.T.ndim));
+  ctx.label(std::string("struct:") + snameOf(c.strucs[0].type));
+  ctx.label(c.T.grid ? "target:grid" : "target:points");
+  Cols a, b, o;
+  ctx.at("simuSpectral:first");
+  int e1 = callSpec(c, c.seed, a);
+  ctx.at("simuSpectral:second");
+  int e2 = callSpec(c, c.seed, b);
+  if (e1 != e2) { ctx.fail("repro:simuSpectral:status", fmt("error codes %d then %d", e1, e2)); return; }
+  if (e1 != 0) { ctx.fail("error:simuSpectral", fmt("simuSpectral returned error %d on a valid input", e1)); return; }
+  if ((int)a.size() != c.nbsimu) { ctx.fail("columns:simuSpectral", fmt("%d output columns for nbsimu=%d", (int)a.size(), c.nbsimu)); return; }
+  std::string d = diffCols(a, b);
+  if (!d.empty()) { ctx.fail("repro:simuSpectral", "same call twice differs: " + d); return; }
+  if (anyNaN(a)) { ctx.fail("nan:simuSpectral", "NaN in the simulated values"); return; }
+  std::vector<int> rows((size_t)c.T.n());
+  std::iota(rows.begin(), rows.end(), 0);
+  ctx.at("simuSpectral:seed2");
+  int e3 = callSpec(c, c.seed2, o);
+  if (e3 != 0) { ctx.fail("error:simuSpectral", "error with the second seed"); return; }
+  for (size_t k = 0; k < a.size(); k++)
+    if (!colsDifferAt(a[k], o[k], rows)) { ctx.fail("seed-insensitive:simuSpectral", fmt("column %d identical for two seeds", (int)k)); return; }
+  for (size_t i = 0; i < a.size(); i++)
+    for (size_t j = i + 1; j < a.size(); j++)
+      if (!colsDifferAt(a[i], a[j], rows)) { ctx.fail("rank-insensitive:simuSpectral", fmt("simulations %d and %d identical", (int)i + 1, (int)j + 1)); return; }
+  ctx.nontrivial(true);
+  ctx.sig = Hash().add(c.T.ndim).add(c.T.grid).add(c.T.n()).add(c.nbsimu).add(c.ns).add(hashStrucs(c.strucs)).h;
+}
+VERIF_SUB(spectral, SpecCase, genSpec, runSpec);
+
+// =================================================================== truncated draws ===
+struct Itv
+{
+  double a = 0., b = 0.; // TEST = unbounded side
+  template<class A> void io(A& ar) { ar("a", a)("b", b); }
+};
+struct TruncCase
+{
+  int seed = 1, ndraw = 5;
+  std::vector<Itv> iv;
+  template<class A> void io(A& a) { a("seed", seed)("ndraw", ndraw)("iv", iv); }
+};
+static double genBound()
+{
+  switch (G::i(0, 5))
+  {
+    case 0: return G::r(-3, 3, 16);
+    case 1: return G::r(-30, 30, 4);
+    case 2: return G::pick<double>({-2., 0., 2., -20., 20., -10., 10.}); // the branch limits of the algorithm
+    case 3: return G::u(-6., 6.);
+    case 4: return (G::b() ? 1. : -1.) * G::u(15., 30.);
+    default: return G::u(-30., 30.);
+  }
+}
+static TruncCase genTrunc()
+{
+  TruncCase c;
+  c.seed = G::seed();
+  c.ndraw = G::i(1, 20);
+  int n = G::sz(1, 30);
+  for (int k = 0; k < n; k++)
+  {
+    Itv I;
+    double x = genBound(), y = genBound();
+    switch (G::i(0, 9))
+    {
+      case 0: I.a = x; I.b = x; break;                               // equal bounds
+      case 1: I.a = TEST; I.b = x; break;                            // one-sided
+      case 2: I.a = x; I.b = TEST; break;
+      case 3: I.a = x; I.b = x + G::pick<double>({1e-4, 1e-3, 1e-2, 0.1}); break; // narrow
+      default: I.a = std::min(x, y); I.b = std::max(x, y); if (I.b - I.a < 1e-4) I.b = I.a; break;
+    }
+    if (!isNA(I.b) && I.b > 30.) I.b = 30.;
+    if (!isNA(I.a) && !isNA(I.b) && I.a > I.b) I.a = I.b;
+    c.iv.push_back(I);
+  }
+  return c;
+}
+static void runTrunc(const TruncCase& c, Ctx& ctx)
+{
+  resetGlobals(2);
+  std::vector<double> first;
+  for (int pass = 0; pass < 2; pass++)
+  {
+    law_set_random_seed(c.seed);
+    size_t pos = 0;
+    for (auto& I : c.iv)
+      for (int k = 0; k < c.ndraw; k++, pos++)
+      {
+        ctx.at("law_gaussian_between_bounds");
+        double x = law_gaussian_between_bounds(I.a, I.b);
+        if (pass == 0)
+        {
+          first.push_back(x);
+          bool inside = !std::isnan(x) && (isNA(I.a) || x >= I.a) && (isNA(I.b) || x <= I.b);
+          if (!inside)
+          {
+            bool naFar = (isNA(I.a) && !isNA(I.b) && I.b < -20.) || (isNA(I.b) && !isNA(I.a) && I.a > 20.);
+            ctx.fail(naFar ? "trunc:na-side-beyond-20" : "trunc:outside",
+                     fmt("law_gaussian_between_bounds(%s, %s) = %.17g", isNA(I.a) ? "NA" : fmt("%.17g", I.a).c_str(),
+                         isNA(I.b) ? "NA" : fmt("%.17g", I.b).c_str(), x));
+            return;
+          }
+        }
+        else if (!sameBits(x, first[pos]))
+        {
+          ctx.fail("repro:trunc", fmt("draw %d differs after reseeding: %.17g vs %.17g", (int)pos, first[pos], x));
+          return;
+        }
+      }
+  }
+  bool nt = false;
+  Hash h;
+  for (auto& I : c.iv)
+  {
+    bool fin = !isNA(I.a) && !isNA(I.b);
+    if (fin && I.b > I.a) nt = true;
+    ctx.label(isNA(I.a) || isNA(I.b) ? "iv:one-sided" : (I.a == I.b ? "iv:equal" : (std::max(std::fabs(I.a), std::fabs(I.b)) > 10 ? "iv:far" : "iv:plain")));
+    h.addq(I.a).addq(I.b);
+  }
+  ctx.nontrivial(nt);
+  ctx.sig = h.add(c.ndraw).h;
+}
+VERIF_SUB(trunc, TruncCase, genTrunc, runTrunc);
+
+// =================================================================== gibbs_sampler =====
+struct GibbsCase
+{
+  int ndim = 2;
+  std::vector<double> pts;
+  std::vector<Struc> strucs;
+  std::vector<double> lo, up; // TEST = unbounded side
+  int nbsimu = 1, nburn = 3, niter = 10, moving = 0, multiMono = 0, norm = 1, seed = 1, seed2 = 2;
+  template<class A> void io(A& a)
+  {
+    a("ndim", ndim)("pts", pts)("strucs", strucs)("lo", lo)("up", up)("nbsimu", nbsimu)("nburn", nburn)("niter", niter);
+    a("moving", moving)("multiMono", multiMono)("norm", norm)("seed", seed)("seed2", seed2);
+  }
+};
+static GibbsCase genGibbs()
+{
+  GibbsCase c;
+  c.ndim = G::pick<int>({1, 2, 2, 3});
+  int n = G::sz(1, 40);
+  double L = G::pick<double>({1., 100.});
+  auto P = vfgeo::genPointSets(c.ndim, {n}, G::pct(30), true, L);
+  c.pts = P[0].c;
+  int ns = G::i(1, 2);
+  for (int k = 0; k < ns; k++) c.strucs.push_back(genStruc(c.ndim, 1, L, {S_EXPO, S_SPHE, S_CUBIC, S_MATERN, S_GAUSS}, G::pct(30), 0.05, 1.));
+  if (G::pct(30))
+  {
+    Struc s;
+    s.type = S_NUGGET;
+    s.ratio.assign((size_t)c.ndim, 1.);
+    s.sills = {G::r(1, 4, 8)};
+    c.strucs.push_back(s);
+  }
+  int style = G::i(0, 3); // 0 mixed, 1 all two-sided, 2 facies-like thresholds, 3 mostly one-sided
+  for (int i = 0; i < n; i++)
+  {
+    double a = TEST, b = TEST;
+    int kind = G::i(0, 9);
+    double x = G::r(-3, 3, 8), w = G::pick<double>({0.125, 0.5, 1., 2., 4.});
+    if (style == 2)
+    {
+      double t[4] = {-10., -0.75, 0.5, 10.};
+      int f = G::i(0, 2);
+      a = t[f]; b = t[f + 1];
+    }
+    else if (style == 1 || kind <= 3) { a = x; b = x + w; }
+    else if (kind == 4) { a = x; b = x; }          // hard datum
+    else if (kind == 5 || (style == 3 && kind <= 7)) { if (G::b()) a = x; else b = x; }
+    else if (kind == 6) { a = G::r(-30, 30, 2); b = a + w; } // far tail
+    else if (kind == 7) { a = x; b = x + w; }
+    // kind 8, 9: unbounded
+    c.lo.push_back(a);
+    c.up.push_back(b);
+  }
+  c.nbsimu = G::i(1, 4);
+  c.nburn = G::pct(5) ? 0 : G::i(1, 8);
+  c.niter = c.nburn + 2 + G::i(0, 15);
+  c.moving = G::pct(35) ? 1 : 0;
+  c.multiMono = G::pct(25) ? 1 : 0;
+  c.norm = G::pct(70) ? 1 : 0;
+  c.seed = G::seed();
+  do { c.seed2 = G::seed(); } while (c.seed2 == c.seed);
+  return c;
+}
+static int callGibbs(const GibbsCase& c, int seed, Cols& out)
+{
+  std::unique_ptr<Db> db(Db::create());
+  int n = (int)c.lo.size();
+  for (int d = 0; d < c.ndim; d++)
+  {
+    VectorDouble x((size_t)n);
+    for (int i = 0; i < n; i++) x[(size_t)i] = c.pts[(size_t)i * c.ndim + d];
+    db->addColumns(x, "x" + std::to_string(d + 1), ELoc::X, d);
+  }
+  db->addColumns(toVD(c.lo), "L", ELoc::L, 0);
+  db->addColumns(toVD(c.up), "U", ELoc::U, 0);
+  int ncol0 = db->getColumnNumber();
+  std::unique_ptr<Model> model = buildModel(c.ndim, 1, c.strucs, {}, -1);
+  int err = gibbs_sampler(db.get(), model.get(), c.nbsimu, seed, c.nburn, c.niter, c.moving != 0, c.norm != 0, c.multiMono != 0, false,
+                          false, 0, 5., false, false);
+  out = newColumns(db.get(), ncol0);
+  return err;
+}
+static void runGibbs(const GibbsCase& c, Ctx& ctx)
+{
+  resetGlobals(c.ndim);
+  int n = (int)c.lo.size();
+  ctx.label(c.multiMono ? "algo:multimono" : (c.moving ? "algo:moving" : "algo:unique"));
+  ctx.label(c.nburn == 0 ? "nburn:0" : "nburn:>0");
+  ctx.label(fmt("ndim:%d", c.ndim));
+  Cols a, b, o;
+  ctx.at("gibbs_sampler:first");
+  int e1 = callGibbs(c, c.seed, a);
+  ctx.at("gibbs_sampler:second");
+  int e2 = callGibbs(c, c.seed, b);
+  if (e1 != e2) { ctx.fail("repro:gibbs:status", fmt("error codes %d then %d", e1, e2)); return; }
+  if (e1 != 0) { ctx.label("rejected"); return; } // e.g. covariance matrix reported singular: a documented error return
+  if ((int)a.size() != c.nbsimu) { ctx.fail("columns:gibbs", fmt("%d output columns for nbsimu=%d", (int)a.size(), c.nbsimu)); return; }
+  std::string d = diffCols(a, b);
+  if (!d.empty()) { ctx.fail("repro:gibbs", "same call twice differs: " + d); return; }
+  bool bounded = false, freeSample = false;
+  for (int s = 0; s < c.nbsimu; s++)
+    for (int i = 0; i < n; i++)
+    {
+      double y = a[(size_t)s][(size_t)i], lo = c.lo[(size_t)i], up = c.up[(size_t)i];
+      bool hasLo = !isNA(lo), hasUp = !isNA(up);
+      if (hasLo && hasUp && up > lo) bounded = true;
+      if (!(hasLo && hasUp && lo == up)) freeSample = true;
+      bool ok = !std::isnan(y) && !isNA(y);
+      if (ok && hasLo) ok = y >= lo - 1e-9 * (1. + std::fabs(lo));
+      if (ok && hasUp) ok = y <= up + 1e-9 * (1. + std::fabs(up));
+      if (!ok)
+      {
+        std::string key = c.nburn == 0 ? "gibbs:bounds:nburn0" : ((hasLo != hasUp) ? "gibbs:bounds:one-sided" : "gibbs:bounds");
+        ctx.fail(key, fmt("simulation %d sample %d = %.17g outside [%s, %s]", s + 1, i, y, hasLo ? fmt("%.17g", lo).c_str() : "NA",
+                          hasUp ? fmt("%.17g", up).c_str() : "NA"));
+        return;
+      }
+    }
+  if (freeSample)
+  {
+    std::vector<int> rows;
+    for (int i = 0; i < n; i++) if (!(!isNA(c.lo[(size_t)i]) && c.lo[(size_t)i] == c.up[(size_t)i])) rows.push_back(i);
+    ctx.at("gibbs_sampler:seed2");
+    int e3 = callGibbs(c, c.seed2, o);
+    if (e3 != 0) { ctx.fail("repro:gibbs:status", "the status depends on the seed"); return; }
+    for (size_t k = 0; k < a.size(); k++)
+      if (!colsDifferAt(a[k], o[k], rows)) { ctx.fail("seed-insensitive:gibbs", fmt("column %d identical for two seeds", (int)k)); return; }
+    for (size_t i = 0; i < a.size(); i++)
+      for (size_t j = i + 1; j < a.size(); j++)
+        if (!colsDifferAt(a[i], a[j], rows)) { ctx.fail("rank-insensitive:gibbs", fmt("simulations %d and %d identical", (int)i + 1, (int)j + 1)); return; }
+  }
+  ctx.nontrivial(bounded);
+  ctx.sig = Hash().add(c.ndim).add(n).add(c.nbsimu).add(c.nburn).add(c.niter).add(c.moving).add(c.multiMono).add(c.norm).add(hashStrucs(c.strucs)).h;
+}
+VERIF_SUB(gibbs, GibbsCase, genGibbs, runGibbs);
+
+// =================================================================== simpgs ============
+// Lithotype rules in prefix notation ("S": threshold along Y1, "T": along Y2, "Fk": facies k); the lower side of a
+// threshold is the first child.  Independent oracle for rho = 0: a node splits its rectangle of the (cdf1, cdf2) unit
+// square along its axis in proportion of the total proportions of its two subtrees.
+static const std::vector<std::vector<std::string>> kRules = {
+  {"S", "F1", "F2"},
+  {"S", "S", "F1", "F2", "F3"},
+  {"S", "T", "F1", "F2", "F3"},
+  {"S", "F1", "T", "F2", "F3"},
+  {"S", "T", "F1", "F2", "T", "F3", "F4"},
+  {"S", "F1", "S", "F2", "F3"},
+};
+static int nfacOfRule(int r)
+{
+  int n = 0;
+  for (auto& s : kRules[(size_t)r]) if (s[0] == 'F') n++;
+  return n;
+}
+static int ngrfOfRule(int r)
+{
+  for (auto& s : kRules[(size_t)r]) if (s == "T") return 2;
+  return 1;
+}
+struct Rect { double c[4] = {0., 1., 0., 1.}; }; // cdf1min, cdf1max, cdf2min, cdf2max
+static double subtreeProp(const std::vector<std::string>& r, size_t& pos, const std::vector<double>& props)
+{
+  const std::string& s = r[pos++];
+  if (s[0] == 'F') return props[(size_t)(s[1] - '1')];
+  double p1 = subtreeProp(r, pos, props);
+  double p2 = subtreeProp(r, pos, props);
+  return p1 + p2;
+}
+static void splitRule(const std::vector<std::string>& r, size_t& pos, const std::vector<double>& props, Rect rc, std::vector<Rect>& out)
+{
+  const std::string& s = r[pos++];
+  if (s[0] == 'F') { out[(size_t)(s[1] - '1')] = rc; return; }
+  int ax = (s == "S") ? 0 : 1;
+  size_t p = pos;
+  double p1 = subtreeProp(r, p, props);
+  double p2 = subtreeProp(r, p, props);
+  double cut = rc.c[2 * ax] + (rc.c[2 * ax + 1] - rc.c[2 * ax]) * p1 / (p1 + p2);
+  Rect lo = rc, hi = rc;
+  lo.c[2 * ax + 1] = cut;
+  hi.c[2 * ax] = cut;
+  splitRule(r, pos, props, lo, out);
+  splitRule(r, pos, props, hi, out);
+}
+// exact standard normal quantile (bisection on erfc; +-infinity at 0 / 1)
+static double qnorm(double p)
+{
+  if (p <= 0) return -INFINITY;
+  if (p >= 1) return INFINITY;
+  double lo = -40, hi = 40;
+  for (int it = 0; it < 200; it++)
+  {
+    double mid = 0.5 * (lo + hi);
+    if (0.5 * std::erfc(-mid / std::sqrt(2.)) < p) lo = mid; else hi = mid;
+  }
+  return 0.5 * (lo + hi);
+}
+
+struct PgsCase
+{
+  Targets T; // 2-D grid
+  int rule = 0;
+  std::vector<double> props;
+  std::vector<Struc> m1, m2;
+  int cond = 1;
+  std::vector<int> place, facies;
+  int nbsimu = 1, nbtuba = 20, nburn = 5, niter = 20, gaus = 0, seed = 1, seed2 = 2;
+  template<class A> void io(A& a)
+  {
+    a("T", T)("rule", rule)("props", props)("m1", m1)("m2", m2)("cond", cond)("place", place)("facies", facies);
+    a("nbsimu", nbsimu)("nbtuba", nbtuba)("nburn", nburn)("niter", niter)("gaus", gaus)("seed", seed)("seed2", seed2);
+  }
+};
+static PgsCase genPgs()
+{
+  PgsCase c;
+  c.T = genTargets(2, 300, 1, G::pct(50));
+  for (auto& v : c.T.nx) v = std::max(v, 2);
+  double L = c.T.extent();
+  c.rule = G::i(0, (int)kRules.size() - 1);
+  int nf = nfacOfRule(c.rule);
+  {
+    // proportions k/20 with every facies >= 2/20
+    std::vector<int> w((size_t)nf, 2);
+    for (int k = 0; k < 20 - 2 * nf; k++) w[(size_t)G::i(0, nf - 1)]++;
+    for (int k = 0; k < nf; k++) c.props.push_back(w[(size_t)k] / 20.);
+  }
+  auto genM = [&](std::vector<Struc>& m) {
+    int ns = G::i(1, 2);
+    for (int k = 0; k < ns; k++) m.push_back(genStruc(2, 1, L, {S_EXPO, S_SPHE, S_CUBIC, S_MATERN, S_GAUSS, S_STABLE}, G::pct(30), 0.1, 1.5));
+    if (G::pct(20))
+    {
+      Struc s;
+      s.type = S_NUGGET;
+      s.ratio.assign(2, 1.);
+      s.sills = {G::r(1, 4, 8)};
+      m.push_back(s);
+    }
+  };
+  genM(c.m1);
+  if (ngrfOfRule(c.rule) == 2) genM(c.m2);
+  c.cond = G::pct(85) ? 1 : 0;
+  int nt = c.T.n();
+  if (c.cond)
+  {
+    int nd = G::sz(1, std::min(15, nt));
+    c.place = genPlacement(nt, nd, 0);
+    for (int k = 0; k < nd; k++) c.facies.push_back(G::i(1, nf));
+  }
+  c.nbsimu = G::pick<int>({1, 1, 2, 3});
+  c.nbtuba = G::sz(1, 100);
+  c.nburn = G::i(1, 6);
+  c.niter = c.nburn + 2 + G::i(0, 20);
+  c.gaus = G::pct(50) ? 1 : 0;
+  c.seed = G::seed();
+  do { c.seed2 = G::seed(); } while (c.seed2 == c.seed);
+  return c;
+}
+struct PgsWorld
+{
+  std::unique_ptr<Db> dbout, dbin;
+  std::unique_ptr<Model> m1, m2;
+  std::unique_ptr<Rule> rule;
+  std::unique_ptr<RuleProp> rp;
+  std::unique_ptr<NeighUnique> neigh;
+};
+static int callPgs(const PgsCase& c, int seed, Cols& out, PgsWorld* keep = nullptr)
+{
+  PgsWorld w;
+  w.dbout = buildTargets(c.T);
+  int ncol0 = w.dbout->getColumnNumber();
+  w.m1 = buildModel(2, 1, c.m1, {}, -1);
+  if (!c.m2.empty()) w.m2 = buildModel(2, 1, c.m2, {}, -1);
+  VectorString names(kRules[(size_t)c.rule].begin(), kRules[(size_t)c.rule].end());
+  w.rule.reset(Rule::createFromNames(names));
+  w.rp.reset(RuleProp::createFromRule(w.rule.get(), toVD(c.props)));
+  w.neigh.reset(NeighUnique::create());
+  if (c.cond)
+  {
+    w.dbin = buildDataOn(w.dbout.get(), 2, c.place);
+    VectorDouble f(c.facies.begin(), c.facies.end());
+    w.dbin->addColumns(f, "facies", ELoc::Z, 0);
+  }
+  int err = simpgs(w.dbin.get(), w.dbout.get(), w.rp.get(), w.m1.get(), w.m2.get(), w.neigh.get(), c.nbsimu, seed, c.gaus, 0, 0, 0,
+                   c.nbtuba, c.nburn, c.niter);
+  out = newColumns(w.dbout.get(), ncol0);
+  if (keep) *keep = std::move(w);
+  return err;
+}
+static void runPgs(const PgsCase& c, Ctx& ctx)
+{
+  resetGlobals(2);
+  int ngrf = ngrfOfRule(c.rule), nf = nfacOfRule(c.rule);
+  ctx.label(fmt("rule:%d", c.rule));
+  ctx.label(c.cond ? "cond" : "noncond");
+  ctx.label(c.gaus ? "out:gaussian" : "out:facies");
+  ctx.label(c.nbsimu > 1 ? "nbsimu:>1" : "nbsimu:1");
+  Cols a, b, o;
+  PgsWorld w;
+  ctx.at("simpgs:first");
+  int e1 = callPgs(c, c.seed, a, &w);
+  ctx.at("simpgs:second");
+  int e2 = callPgs(c, c.seed, b);
+  if (e1 != e2) { ctx.fail("repro:simpgs:status", fmt("error codes %d then %d", e1, e2)); return; }
+  if (e1 != 0) { ctx.label("rejected"); return; } // Gibbs covariance inversion may legitimately fail
+  int expected = c.gaus ? ngrf * c.nbsimu : c.nbsimu;
+  if ((int)a.size() != expected) { ctx.fail("columns:simpgs", fmt("%d output columns, expected %d", (int)a.size(), expected)); return; }
+  std::string d = diffCols(a, b);
+  if (!d.empty()) { ctx.fail(std::string("repro:simpgs") + (c.cond ? ":cond" : ":noncond"), "same call twice differs: " + d); return; }
+  if (anyNaN(a)) { ctx.fail("nan:simpgs", "NaN in the output"); return; }
+
+  // thresholds of every facies, recomputed from the proportions
+  std::vector<Rect> rect((size_t)nf);
+  {
+    size_t pos = 0;
+    splitRule(kRules[(size_t)c.rule], pos, c.props, Rect(), rect);
+  }
+  const double ttol = 1e-4; // the library's quantile function is accurate to ~1e-6
+  bool checked = false;
+  int nd = (int)c.place.size();
+  const std::string multi = (ngrf == 2 && c.nbsimu > 1) ? ":2grf-multisimu" : "";
+  if (c.cond)
+  {
+    if (c.gaus) w.rule->setProportions(toVD(c.props));
+    for (int k = 0; k < nd; k++)
+    {
+      int t = c.place[(size_t)k], f = c.facies[(size_t)k];
+      for (int s = 0; s < c.nbsimu; s++)
+      {
+        checked = true;
+        if (!c.gaus)
+        {
+          double got = a[(size_t)s][(size_t)t];
+          if (got != (double)f)
+          { ctx.fail("pgs:data-facies" + multi, fmt("simulation %d at the node of datum %d: facies %g, observed %d", s + 1, k, got, f)); return; }
+          continue;
+        }
+        double y[2] = {a[(size_t)s][(size_t)t], ngrf == 2 ? a[(size_t)(c.nbsimu + s)][(size_t)t] : 0.};
+        for (int g = 0; g < ngrf; g++)
+        {
+          double lo = qnorm(rect[(size_t)(f - 1)].c[2 * g]), hi = qnorm(rect[(size_t)(f - 1)].c[2 * g + 1]);
+          if (!(y[g] >= lo - ttol && y[g] <= hi + ttol))
+          {
+            ctx.fail("pgs:data-gauss" + multi, fmt("simulation %d, gaussian %d at the node of datum %d (facies %d) = %.17g outside [%g, %g]",
+                                                   s + 1, g + 1, k, f, y[g], lo, hi));
+            return;
+          }
+        }
+        int flib = w.rule->getFaciesFromGaussian(y[0], y[1]);
+        if (flib != f)
+        { ctx.fail("pgs:data-gauss-rule" + multi, fmt("simulation %d: gaussians (%.17g, %.17g) at datum %d give facies %d, observed %d", s + 1, y[0], y[1], k, flib, f)); return; }
+      }
+    }
+  }
+  if (!c.gaus)
+    for (auto& col : a)
+      for (double v : col)
+        if (!(v >= 1 && v <= nf && v == std::floor(v))) { ctx.fail("pgs:facies-range", fmt("simulated facies %g not in 1..%d", v, nf)); return; }
+  if (c.gaus)
+  {
+    std::vector<int> isDatum((size_t)c.T.n(), 0), rows;
+    for (int p : c.place) isDatum[(size_t)p] = 1;
+    for (int i = 0; i < c.T.n(); i++) if (!isDatum[(size_t)i]) rows.push_back(i);
+    if (!rows.empty())
+    {
+      ctx.at("simpgs:seed2");
+      int e3 = callPgs(c, c.seed2, o);
+      if (e3 == 0)
+      {
+        for (size_t k = 0; k < a.size() && k < o.size(); k++)
+          if (!colsDifferAt(a[k], o[k], rows)) { ctx.fail("seed-insensitive:simpgs", fmt("column %d identical for two seeds", (int)k)); return; }
+        for (size_t i = 0; i < a.size(); i++)
+          for (size_t j = i + 1; j < a.size(); j++)
+            if (!colsDifferAt(a[i], a[j], rows)) { ctx.fail("rank-insensitive:simpgs", fmt("output columns %d and %d identical", (int)i, (int)j)); return; }
+      }
+    }
+  }
+  ctx.nontrivial(checked);
+  ctx.sig = Hash().add(c.rule).add(c.T.n()).add(c.cond).add(c.gaus).add(c.nbsimu).add(c.nbtuba).add(c.nburn).add(c.niter).add(nd)
+              .add(hashStrucs(c.m1)).add(hashStrucs(c.m2)).h;
+}
+VERIF_SUB(pgs, PgsCase, genPgs, runPgs);
+
+VERIF_MAIN()
